@@ -73,6 +73,8 @@ def exec_for(I, st):
         it = KeyIter(I.heap[it.oid]["dom"], None, "rows", it)
     if isinstance(it, KeyIter):
         return foreach_key(I, st, it)
+    if isinstance(it, Obj) and it.kind == "seq" and "at" in I.heap[it.oid]:
+        return foreach_index(I, st, it)
     raise Unsupported("for over %r at %s:%d" % (it, I.frame().relpath, st.lineno))
 
 
@@ -293,3 +295,59 @@ def zip_comprehension(I, e, g, keys, values):
     def get(x):
         return _subst_value(vv, ic, inv(x))
     return I.new_map(get, dom, None, "dict")
+
+
+class IndexLoopCtx:
+    def __init__(self, I, entry, env, i, n, seq):
+        self.I, self.entry, self.env, self.i, self.n, self.seq = I, entry, env, i, n, seq
+        self.cur = I.snapshot()
+
+
+def foreach_index(I, st, seq):
+    """`for x in <sequence of symbolic length>` by an index invariant: I(0); I(i) & 0<=i<n |- body |- I(i+1); I(n) |- rest.
+    The sequence object must not be modified by the body (python would misbehave): checked through the write log."""
+    fr = I.frame()
+    ordn = for_ordinal(I, st)
+    lc = I.registry.get("loop:%s#%d" % (fr.qual, ordn))
+    if lc is None:
+        raise Unsupported("loop %s#%d has no loop contract" % (fr.qual, ordn))
+    pfx = "%s::loop%d::" % (fr.qual, ordn)
+    entry = I.snapshot()
+    p = entry[seq.oid]
+    n, at = p["len"], p["at"]
+    L = IndexLoopCtx(I, entry, fr.env, z3.IntVal(0), n, seq)
+    for cl in lc.inv(L):
+        C.prove_clause(I, pfx + "init::", cl)
+    mode = I.choice(2)
+    for loc in lc.havoc(L):
+        C.havoc_loc(I, loc)
+    for name in lc.locals_:
+        if name in fr.env:
+            fr.env[name] = C.fresh_like(I, fr.env[name], "hv_" + name)
+    if mode == 0:
+        i = I.idx("i")
+        I.assume(z3.And(0 <= i, i < n))
+        L = IndexLoopCtx(I, entry, fr.env, i, n, seq)
+        for cl in lc.inv(L):
+            C.assume_clause(I, cl)
+        I.assign(st.target, at(i))
+        log = set()
+        I.write_logs.append(log)
+        try:
+            I.block(st.body)
+        except _Continue:
+            pass
+        except _Break:
+            raise Unsupported("break in a contract loop")
+        finally:
+            I.write_logs.pop()
+        I.obls.append(C.Obligation(pfx + "preserve::iterated_sequence_not_modified", "sat" if any(o == seq.oid for o, _ in log) else "unsat",
+                                   "engine(write log)", 0, path=list(I.dec), model={} if any(o == seq.oid for o, _ in log) else None))
+        I.add_idx(i + 1)
+        L2 = IndexLoopCtx(I, entry, fr.env, i + 1, n, seq)
+        for cl in lc.inv(L2):
+            C.prove_clause(I, pfx + "preserve::", cl)
+        raise PathEnd("loop-iteration-verified")
+    L = IndexLoopCtx(I, entry, fr.env, n, n, seq)
+    for cl in lc.inv(L):
+        C.assume_clause(I, cl)
